@@ -516,6 +516,7 @@ def report_violations(prop_id, mod, seed, args, viols, t0, agg, pre, st=None):
         print(f"VIOLATION property={prop_id} replay={path}")
         print(f"  rule={rule} {str(v.get('msg'))[:600]}")
     if agg is not None:
+        agg["known_findings_seen"] = sorted(k[1] for k in printed)
         agg2 = dict(agg)
     else:
         agg2 = aggregate([])
@@ -573,6 +574,7 @@ def write_evidence(prop_id, mod, seed, tier, agg, t0, st, pre, violations, harne
     wall = time.perf_counter() - t0
     runs = agg.get("runs", 0)
     cov = {
+        "known_findings_seen": agg.get("known_findings_seen", []),
         "evaluations": runs,
         "distinct_nontrivial": agg.get("distinct_nontrivial", 0),
         "rule": getattr(mod, "COVERAGE_RULE", "") or (
